@@ -147,6 +147,8 @@ fixed("C09", "fdb06df", "KernelNormalizer().fit(K_14).fit(K_9) raised a feature-
 # ------------------------------------------------------------------ C08
 fixed("C08", "d44f50a", "CUR / PCov-CUR warm start on data of scale >~ 1e3 re-orthogonalised by round-off residuals (absolute tolerance): X_current_ off by up to 66 %, warm-started selection differs from the cold one at scale 1e6")
 
+fixed("C08", "18b51ea", "CUR / PCov-CUR warm start on float32 data re-orthogonalised by round-off residuals (residual ~1e-7 x norm against tolerance 1e-12 x norm): the warm-started selection differed from the cold one in 30 of 40 random 30x20 float32 matrices (observation of a round-4 sub-agent, reproduced; found by the float32 class of C08)")
+
 # ------------------------------------------------------------------ C15
 fixed("C15", "d67ecc1", "periodic_pairwise_euclidean_distances(list-of-lists, cell_length=...) raised AttributeError: the dimension check read X.shape before the documented array-like input was validated")
 
